@@ -482,6 +482,26 @@ R.contract(
     max_paths=40000,
 )
 
+# ------------------------------------------------------------------------------------------------- headers / media types come from the SAME selected definition
+frd = R.contracts[OAS + "_find_response_definition"]
+frd.effects = {"looked_up_in": "responses", "looked_up_status": "status_code", "found": "result"}
+R.contract(
+    OAS + "BaseOpenAPISchema._get_response_definitions",
+    prop="C04",
+    args={"self": Obj(OAS + "BaseOpenAPISchema", resolver=Opq("Resolver")),
+          "operation": Obj("schemathesis.schemas:APIOperation", path=Str, method=Str, definition=Obj("schemathesis.schemas:OperationDefinition", raw=DictOf(required={"responses": KeyedDict(Str, RespDef, sizes=(0, 1), optional={"default": RespDef})}), scope=Str)),
+          "response": Obj("schemathesis.core.transport:Response", status_code=IntRange(100, 599))},
+    requires=["not code_matches('default', response.status_code)"],
+    ghost={"looked_up_in": None, "looked_up_status": None, "found": "not-looked-up", "definition": None},
+    raises=[],
+    bounded_note="response maps with one symbolic key + 'default'",
+    ensures={
+        # headers and media types are taken from the definition selected for THIS status code among THIS operation's responses (selection rule: _find_response_definition)
+        "selected_among_this_operations_responses_for_this_status": "ghost('looked_up_in') is operation.definition.raw['responses'] and ghost('looked_up_status') == response.status_code",
+        "nothing_found_nothing_returned": "iff(result is None, ghost('found') is None)",
+    },
+)
+
 LEVEL_TEXT = ("Deductive: status-code verdict (both directions), content-type verdict with wildcards, definition selection and failure plumbing are "
               "postconditions from the property on the real functions, discharged by z3; maps/lists with symbolic keys are explored up to 2 entries (labelled bounded), "
               "expand_status_code by complete enumeration of its finite domain.")
